@@ -92,9 +92,10 @@ func (s *c17Stream) XORKeyStream(dst, src []byte) {
 }
 
 type c17Conn struct {
-	in  []byte
-	pos int
-	out []byte
+	in    []byte
+	avail int // the peer's stream ends after in[:avail] (symbolic in VerifC17_ReadMsg)
+	pos   int
+	out   []byte
 }
 
 // maximal read buffer rlpxFrameRW may allocate: 24-bit frame size rounded up to 16
@@ -102,10 +103,10 @@ const c17MaxAlloc = 1<<24 + 15
 
 func (c *c17Conn) Read(p []byte) (int, error) {
 	vs.Assert(len(p) <= c17MaxAlloc, "read buffer (frame allocation) within 2^24+15 bytes")
-	if c.pos >= len(c.in) {
+	if c.pos >= c.avail {
 		return 0, io.EOF
 	}
-	n := copy(p, c.in[c.pos:])
+	n := copy(p, c.in[c.pos:c.avail])
 	c.pos += n
 	return n, nil
 }
@@ -172,7 +173,7 @@ func c17Eq(a, b []byte) bool {
 }
 
 // VerifC17_ReadMsg: rlpxFrameRW.ReadMsg on an arbitrary byte stream of symbolic
-// length, arbitrary MAC/cipher functions and key stream.
+// length (0..wire bytes), arbitrary MAC/cipher functions and key stream.
 //   - never panics; terminates with an error when the stream ends early;
 //   - never asks the connection for more than 2^24+15 bytes at once (the frame
 //     buffer it allocates);
@@ -182,10 +183,12 @@ func c17Eq(a, b []byte) bool {
 //     payload is the decryption of exactly those bytes.
 func VerifC17_ReadMsg() {
 	L := vs.Param("wire")
-	wire := vs.Bytes("wire", L)
+	wire := vs.BytesN("wire", L)
+	avail := vs.Int("avail") // the stream is wire[:avail]; symbolic, so one path covers every length that reads the same
+	vs.Assume(avail >= 0 && avail <= L)
 	seed := vs.BytesN("macseed", 4)
 	ks := vs.BytesN("ks", 16+L)
-	conn := &c17Conn{in: append([]byte(nil), wire...)}
+	conn := &c17Conn{in: append([]byte(nil), wire...), avail: avail}
 	mac := newC17Hash(seed)
 	rw := &rlpxFrameRW{conn: conn, enc: &c17Stream{ks: ks}, dec: &c17Stream{ks: ks},
 		macCipher: c17Block{}, egressMAC: newC17Hash(seed), ingressMAC: mac}
@@ -197,7 +200,7 @@ func VerifC17_ReadMsg() {
 		return
 	}
 	vs.Reach("deliver")
-	vs.Assert(len(wire) >= 32, "delivery needs a complete header")
+	vs.Assert(avail >= 32, "delivery needs a complete header")
 	vs.Assert(len(mac.sums) == 5, "both MACs were computed (two updateMAC rounds and the frame seed)")
 	vs.Assert(c17Eq(wire[16:32], mac.sums[1][:16]), "delivered only if the header MAC matched")
 	hdr := []byte{wire[0] ^ ks[0], wire[1] ^ ks[1], wire[2] ^ ks[2]}
@@ -206,7 +209,7 @@ func VerifC17_ReadMsg() {
 	if fsize%16 != 0 {
 		rsize += 16 - fsize%16
 	}
-	vs.Assert(len(wire) >= 32+rsize+16, "delivery needs the complete frame and its MAC")
+	vs.Assert(avail >= 32+rsize+16, "delivery needs the complete frame and its MAC")
 	frame := wire[32 : 32+rsize]
 	vs.Assert(c17Eq(wire[32+rsize:32+rsize+16], mac.sums[4][:16]), "delivered only if the frame MAC matched")
 	// history of the ingress MAC: seed, 16 bytes (header round), frame, 16 bytes (frame round)
@@ -245,7 +248,7 @@ func VerifC17_FrameRoundTrip() {
 	wire := conn.out
 	vs.Assert(len(wire) >= 48 && (len(wire)-48)%16 == 0, "wire layout: 32-byte header, padded frame, 16-byte MAC")
 	vs.Assert(len(wire)-48 >= 1+len(payload) && len(wire)-48 <= 9+len(payload)+15, "frame holds code and payload, padded to 16")
-	conn.in = append([]byte(nil), wire...)
+	conn.in, conn.avail = append([]byte(nil), wire...), len(wire)
 
 	msg, err := rw.ReadMsg()
 	vs.Assert(err == nil, "ReadMsg accepts what WriteMsg framed")
